@@ -1,4 +1,6 @@
 import Sudachi.Proofs.Recycle
+import Sudachi.Proofs.RecycleObs
+import Sudachi.Proofs.RecycleFast
 /-!
 # C10 — Results do not depend on what a tokenizer or result list processed before
 
@@ -19,7 +21,7 @@ only the `…_partial` statements ("result path present") hold.
 namespace C10
 open Recycle
 
-variable {E : Type}
+variable {E F : Type}
 
 /-- **reset_establishes / history independence, core statement.**  Take ANY two tokenizer working states
 (any lattice rows, any stale input tables, any scratch contents, any OOV scratch - e.g. the state after an
@@ -241,6 +243,132 @@ theorem collect_transfers (w : World E) (j : Nat) (L : MList E) (p : Part E) (pa
   unfold World.collect
   simp [hL, hp, ht]
 
+
+/-! ### the OBSERVABLE result (morpheme list) is a function of (text, mode, field request) -/
+
+/-- **effective_subset_covers_request** (the design's `subset_monotone`, corrected).  After ANY history (both
+variants of `reset`) the tokenizer's effective field subset, closed under `InfoSubset::normalize`, contains the subset
+of a tokenizer created now with the current mode and the last field request.  Without the closure this is false
+(`subset_monotone_counterexample`: `HEAD_WORD_LENGTH`). -/
+theorem effective_subset_covers_request (v : ResetVariant) (m : Mode) (ops : List (Payload E × Op E)) :
+    let w := (World.init m).run v ops
+    Subset.le (freshSubset w.tok.mode w.request) w.tok.subset.normalize = true :=
+  run_covers v ops _ (Covers.init m)
+
+/-- **history_independent_requested_fields** (repaired `reset`, tokenizer level).  A tokenizer in ANY working
+state with the drain invariant versus a tokenizer created NOW for the same mode and the field request `req` - the
+two may run with DIFFERENT effective subsets (earlier `set_mode` calls leave extra fields loaded).  If the payload
+cannot tell the two subsets apart through the projection `proj` onto the requested fields (`FieldsFree` = C11's
+`subset_fields_eq` as a hypothesis on the path phase), every text gives the same outcome and, when Ok, the same
+result path seen through `proj`, the same input buffer and mode. -/
+theorem history_independent_requested_fields (P : Payload E) (proj : E → F) (t : Tok E) (req : Option Subset)
+    (text : List E) (hinv : Inv t) (hlen : OffsetsInRange .fix P t text)
+    (hfree : FieldsFree P proj t.subset (freshSubset t.mode req)) :
+    (t.analyse .fix P text).2 = ((Tok.freshFor t.mode req).analyse .fix P text).2 ∧
+    ((t.analyse .fix P text).2 = .ok →
+      ObsP proj (t.analyse .fix P text).1 ((Tok.freshFor t.mode req).analyse .fix P text).1) :=
+  analyse_vs_freshFor P proj t req text hinv hlen (by rw [freshSubset_eq]; exact hfree)
+
+/-- **observable_result_history_free** - FULL statement of the property for the repaired `reset`.  Start from a new
+tokenizer, run ANY history (set_mode / set_subset sequences, analyses that are Ok, empty, rejected as too long,
+disconnected, failing or panicking after the path was taken, `collect_results` with its buffer swaps into reused and
+cross-used lists, new lists, clones, clear, `split_into` and `lookup` on result lists - each with its own payload).
+Then analyse `text` and collect into ANY existing list `j`.  Compare with: a tokenizer created now for the mode and
+the LAST FIELD REQUEST the history left (`World.fresh`), one new list, the same analysis, collect.  The outcomes are
+equal and, when Ok, both collects succeed and what the caller reads - the morphemes of the list seen through
+`proj` (ranges, word ids, requested fields) and the input buffer they refer to (surface, offsets) - is THE SAME:
+a function of (payload = dictionary + text, mode, request) alone.
+
+Hypotheses: `hj` the list exists; `OffsetsInRange` (as before); `hfree` = C11 for this payload: any subset that
+covers the fresh tokenizer's subset is indistinguishable from it through `proj`.  That the history's effective
+subset does cover it is PROVED (`effective_subset_covers_request`), not assumed. -/
+theorem observable_result_history_free (proj : E → F) (m0 : Mode) (ops : List (Payload E × Op E)) (P : Payload E)
+    (text : List E) (j : Nat)
+    (hj : j < ((World.init m0).run .fix ops).lists.length)
+    (hlen : OffsetsInRange .fix P ((World.init m0).run .fix ops).tok text)
+    (hfree : ∀ s, Subset.le (freshSubset ((World.init m0).run .fix ops).tok.mode ((World.init m0).run .fix ops).request)
+        s.normalize = true →
+      FieldsFree P proj s (freshSubset ((World.init m0).run .fix ops).tok.mode ((World.init m0).run .fix ops).request)) :
+    let w := (World.init m0).run .fix ops
+    let a := w.step .fix P (.analyse text)
+    let f : World E := ((World.fresh w.tok.mode w.request).step .fix P .newList).1
+    let b := f.step .fix P (.analyse text)
+    a.2 = b.2 ∧
+    (a.2 = .ok → (a.1.collect j).2 = .ok ∧ (b.1.collect 0).2 = .ok ∧
+      World.result proj (a.1.collect j).1 j = World.result proj (b.1.collect 0).1 0) := by
+  intro w
+  have hinv := (run_inv .fix ops _ (WInv.init m0)).1
+  have hcov := run_covers .fix ops _ (Covers.init (E := E) m0)
+  have hok := run_listsOk .fix ops _ (ListsOk.init (E := E) m0)
+  have h := history_independent_requested_fields P proj w.tok w.request text hinv hlen (hfree w.tok.subset hcov)
+  exact result_eq_of_obs proj P w (Tok.freshFor w.tok.mode w.request) w.request text j hj hok h.1 h.2
+
+/-- **observable_result_same_subset** - the same WITHOUT any payload hypothesis, when the comparison tokenizer is
+given the history's effective subset: for every projection (in particular the identity: the nodes themselves). -/
+theorem observable_result_same_subset (proj : E → F) (m0 : Mode) (ops : List (Payload E × Op E)) (P : Payload E)
+    (text : List E) (j : Nat)
+    (hj : j < ((World.init m0).run .fix ops).lists.length)
+    (hlen : OffsetsInRange .fix P ((World.init m0).run .fix ops).tok text) :
+    let w := (World.init m0).run .fix ops
+    let a := w.step .fix P (.analyse text)
+    let f : World E := ((⟨{ Tok.create w.tok.mode with subset := w.tok.subset }, [], [], w.request⟩ : World E).step
+      .fix P .newList).1
+    let b := f.step .fix P (.analyse text)
+    a.2 = b.2 ∧
+    (a.2 = .ok → (a.1.collect j).2 = .ok ∧ (b.1.collect 0).2 = .ok ∧
+      World.result proj (a.1.collect j).1 j = World.result proj (b.1.collect 0).1 0) := by
+  intro w
+  have hinv := (run_inv .fix ops _ (WInv.init m0)).1
+  have hok := run_listsOk .fix ops _ (ListsOk.init (E := E) m0)
+  have h := history_independent P w.tok text hinv hlen
+  refine result_eq_of_obs proj P w _ w.request text j hj hok h.1 (fun hk => ?_)
+  obtain ⟨a1, a2, -, a4⟩ := h.2 hk
+  exact ⟨by rw [a1], a2, a4⟩
+
+
+/-! ### the Python binding -/
+
+/-- **py_tokenize_is_a_history.**  One `Tokenizer.tokenize(text, mode=, out=)` of the Python binding
+(`World.pyTokenize`: per-call mode override restored by the scope guard on every exit, `do_tokenize`, the result
+collected into `out` or into a new list) leaves exactly the state of a plain history of API calls
+(`pyOps`: `[set_mode m]; analyse; [new list]; collect; [set_mode default]`, without the collect when the analysis
+failed) - so every theorem above about histories covers Python sessions on one long-lived `Tokenizer` with reused
+`out` lists.  Both variants of `reset`. -/
+theorem py_tokenize_is_a_history (v : ResetVariant) (P : Payload E) (w : World E) (mode : Option Mode)
+    (out : Option Nat) (text : List E) :
+    let w1 := match mode with
+      | some m => (w.step v P (.setMode m)).1
+      | none => w
+    (w.pyTokenize v P mode out text).1 =
+      w.run v (pyOps P w.tok.mode w.lists.length mode out text (decide ((w1.step v P (.analyse text)).2 = .ok))) :=
+  pyTokenize_eq_run v P w mode out text
+
+/-- **py_tokenize_restores_mode.**  Whatever happens inside the call (Ok, the text rejected as too long, Disconnect, an
+error or a panic after the path was taken, `collect_results` failing), the tokenizer is left in the mode it had. -/
+theorem py_tokenize_restores_mode (v : ResetVariant) (P : Payload E) (w : World E) (mode : Option Mode)
+    (out : Option Nat) (text : List E) : (w.pyTokenize v P mode out text).1.tok.mode = w.tok.mode :=
+  pyTokenize_mode v P w mode out text
+
+/-! ### the executed representation (array rows) is the list model -/
+
+/-- **executed_step_eq_model.**  The driver keeps the three row vectors of the lattice as `Array (Array E)`
+(`Model/RecycleFast.lean`; the list model is quadratic in the text length).  One API call on the executed state,
+seen through the abstraction `XWorld.abs`, IS the call of the list model the theorems above speak about: same
+state, same outcome - for every payload, operation and variant of `reset`. -/
+theorem executed_step_eq_model (v : ResetVariant) (P : Payload E) (x : XWorld E) (op : Op E) :
+    ((x.step v P op).1.abs, (x.step v P op).2) = x.abs.step v P op :=
+  XWorld.step_abs v P x op
+
+/-- whole histories from a new tokenizer -/
+theorem executed_history_eq_model (v : ResetVariant) (m : Mode) (ops : List (Payload E × Op E)) :
+    ((XWorld.init m).run v ops).abs = (World.init m).run v ops := by
+  rw [XWorld.run_abs, XWorld.init_abs]
+
+/-- **driver_answer_eq_model.**  The answer line the driver prints for a C10 case (array rows, array look-up of the
+candidates) is the answer line of the list model (`handleL`: `World.step` on `List (List Nat)` rows, `payloadOf`). -/
+theorem driver_answer_eq_model (toks : List (List Char)) : Recycle.IO.handle toks = Recycle.IO.handleL toks :=
+  Recycle.IO.handle_eq toks
+
 /-! ### the code as it stands violates the property: an Ok analysis whose result cannot be collected -/
 
 /-- payload of an analysis of a one-character text that fails after `resolve_best_path` took the path
@@ -391,5 +519,50 @@ example : ∀ v : ResetVariant,
       (Input.prepare P1 (t.resetWith v [1, 1, 1]).input).1.modChars.length ∧
     (t.analyse v P1 [1, 1, 1]).2 = .ok := by
   intro v; cases v <;> decide
+
+/-- a payload whose nodes DEPEND on the effective subset (a node carries +100 when the head-word length is loaded),
+read through the projection that forgets that (`% 100`) -/
+def subsetSensitive : Payload Nat :=
+  { Recycle.IO.payloadOf [] [[1], [2], [3]] true .none 0 0 true with
+    pathNodes := fun s _ _ _ ids => .nodes (ids.map (fun x => x % 100 + 7 + if s.headLen then 100 else 0)),
+    rewritePath := fun _ _ _ p => .nodes p }
+
+/-- `FieldsFree` (hypothesis `hfree` of `observable_result_history_free` / `history_independent_requested_fields`) is
+met by a payload that is NOT subset independent: all subsets are indistinguishable through `% 100` … -/
+example : ∀ s s' : Subset, FieldsFree subsetSensitive (· % 100) s s' := by
+  intro s s' m inp full ends ids path0
+  simp only [pathPhase, subsetSensitive, PathRes.mapP, List.map_append, List.map_map]
+  congr 2
+  apply List.map_congr_left
+  intro x _
+  simp only [Function.comp]
+  split <;> split <;> omega
+
+/-- … although the raw nodes differ, and the other hypotheses hold on the history of
+`subset_monotone_counterexample` (`set_subset(POS); set_mode(A)`: effective subset ≠ the fresh tokenizer's), with a
+list that was used before, a rejected and an empty text in between: the list exists, `OffsetsInRange` holds, the
+analysis is Ok, the effective subset differs from the fresh one, and the conclusion's two results are equal and
+non-trivial. -/
+example :
+    let P1 : Payload Nat := Recycle.IO.payloadOf [] [[1], [2], [3]] true (.path 3) 0 0 true
+    let ops : List (Payload Nat × Op Nat) :=
+      [(plain, .newList), (plain, .setSubset { Subset.empty with pos := true }), (P1, .analyse [1, 1, 1]),
+       (plain, .collect 0), (plain, .setMode .A), ({ plain with maxLen := 2 }, .analyse [1, 1, 1]), (plain, .analyse []),
+       (plain, .collect 0)]
+    let w := (World.init .C).run .fix ops
+    let a := w.step .fix subsetSensitive (.analyse [1, 1, 1])
+    let f : World Nat := ((World.fresh w.tok.mode w.request).step .fix subsetSensitive .newList).1
+    let b := f.step .fix subsetSensitive (.analyse [1, 1, 1])
+    0 < w.lists.length ∧ w.tok.subset ≠ freshSubset w.tok.mode w.request ∧
+    (Input.prepare subsetSensitive (w.tok.resetWith .fix [1, 1, 1]).input).1.modC2b.length - 1 ≤
+      (Input.prepare subsetSensitive (w.tok.resetWith .fix [1, 1, 1]).input).1.modChars.length ∧
+    (w.step .fix { plain with maxLen := 2 } (.analyse [1, 1, 1])).2 = .err .tooLong ∧
+    a.2 = .ok ∧ b.2 = .ok ∧
+    (World.result (· % 100) (a.1.collect 0).1 0).map (·.1) = (World.result (· % 100) (b.1.collect 0).1 0).map (·.1) ∧
+    (World.result (· % 100) (a.1.collect 0).1 0).map (·.1) = some [7] ∧
+    (World.result id (a.1.collect 0).1 0).map (·.1) ≠ (World.result id (b.1.collect 0).1 0).map (·.1) ∧
+    (World.result id (a.1.collect 0).1 0).map (·.2.original) = some [1, 1, 1] := by
+  decide
+
 
 end C10
